@@ -3,9 +3,9 @@ CM=/opt/veriftools/tla/CommunityModules-deps.jar
 
 setup: spec/classes/Rat.class sany
 
-spec/classes/Rat.class: spec/Rat.java
+spec/classes/Rat.class: spec/Rat.java spec/Str.java
 	mkdir -p spec/classes
-	javac -cp $(JAR) -d spec/classes spec/Rat.java
+	javac -cp $(JAR) -d spec/classes spec/Rat.java spec/Str.java
 
 sany:
 	@cd spec && for f in *.tla; do java -cp $(JAR):$(CM) tla2sany.SANY $$f > /tmp/sany.$$$$.log 2>&1; if grep -q "Semantic errors\|\*\*\* Errors\|Fatal errors\|Could not parse\|Parse Error" /tmp/sany.$$$$.log; then echo "SANY failed on $$f"; cat /tmp/sany.$$$$.log; rm -f /tmp/sany.$$$$.log; exit 1; fi; rm -f /tmp/sany.$$$$.log; done; echo "SANY ok"
